@@ -209,7 +209,27 @@ def postorder(repo, res, rule="TOPO"):
             res.check(False, rule, f"{rule}:check::ValidGrammar::from_grammar:expansion-order-found", "no loop that expands definitions over get_nonterminals_resolution_order's result was found", fg.loc())
 
 
+def arena_immut(repo, res, tier, rule="ARENA-IMMUT"):
+    from vlib import mir as M, rules_arena as RA
+    from . import c10
+
+    mir = M.get_mir(tier)
+    reach = mir.reachable(["main::main"])
+    hits, n = RA.scan(mir, reach)
+    for fnp, callee, ty, f, line in hits:
+        res.bad(rule, f"{rule}:{fnp}:{callee.split('::')[-1]}", f"{fnp} takes a mutable reference into an arena ({callee} on {ty}): nodes are shared between all references of an expanded nonterminal, an in-place edit changes every occurrence at once", fnp)
+    res.ok(rule, f"{rule}:scan", f"{n} mutable-element calls on slices/vectors reachable from main ({len(reach)} functions): {len(hits)} on an Expr / RegexNode arena", "")
+    res.engines["M"] = {"functions": len(mir.fns), "reachable_from_main": len(reach)}
+    cm, err = c10.control_facts()
+    if cm is None:
+        res.undecided("CONTROL", "CONTROL:arena-immut", "control crate did not compile under the driver: " + err[-200:])
+    else:
+        ch, _ = RA.scan(cm, cm.reachable(["main::main"]))
+        res.check(len(ch) >= 2, "CONTROL", "CONTROL:arena-immut", f"control: {len(ch)} in-place arena edits flagged ({sorted(set(c.split('::')[-1] for _, c, *_ in ch))})", "")
+
+
 def run(repo, res, tier):
+    arena_immut(repo, res, tier)
     postorder(repo, res)
     n_tc = common.run_traversals(repo, res, flows=flows_table())
     res.floor("TC", res.count("TC"), 93)
